@@ -28,6 +28,7 @@ type c12owOp struct {
 	key     string
 	desc    string
 	release chan bool
+	gid     int64 // the goroutine that carries the write
 }
 
 type c12owStore struct {
@@ -40,7 +41,7 @@ type c12owStore struct {
 var errC12OW = errors.New("c12: database is locked (injected)")
 
 func (s *c12owStore) arrive(key, desc string) *c12owOp {
-	op := &c12owOp{key: key, desc: desc, release: make(chan bool, 1)}
+	op := &c12owOp{key: key, desc: desc, release: make(chan bool, 1), gid: c12owGID()}
 	s.mu.Lock()
 	if s.infl[key] != nil {
 		s.log = append(s.log, key+":OVERLAP") // two operations of one key at the store at once
@@ -118,6 +119,17 @@ func c12owGID() int64 {
 	return id
 }
 
+// does goroutine gid still exist?
+func c12owAlive(gid int64) bool {
+	for sz := 1 << 18; ; sz *= 2 {
+		buf := make([]byte, sz)
+		n := runtime.Stack(buf, true)
+		if n < sz || sz >= 1<<26 { // complete dump
+			return bytes.Contains(buf[:n], []byte(fmt.Sprintf("goroutine %d [", gid)))
+		}
+	}
+}
+
 // is goroutine gid parked (waiting for its turn, or inside the store fake)?
 func c12owParked(gid int64) bool {
 	buf := make([]byte, 1<<18)
@@ -139,6 +151,7 @@ func c12owCase(ops []string) string {
 	ctx := context.Background()
 	var mu sync.Mutex
 	res := []string{}
+	errs := []string{}
 	set := func(i int, v string) {
 		mu.Lock()
 		res[i] = v
@@ -186,6 +199,20 @@ func c12owCase(ops []string) string {
 			if op := st.at(a[1]); op != nil {
 				op.release <- a[0] == "ok"
 				c12owWait(50*time.Millisecond, func() bool { return st.at(a[1]) != op })
+				if a[0] == "err" {
+					// what does the writer do with the error?  It may repeat the write inside its slot: the same
+					// goroutine brings the same operation to the store again (handshake: wait until it does, or
+					// until that goroutine has finished — no fixed sleep).
+					verdict := "f"
+					c12owWait(5*time.Second, func() bool {
+						if n := st.at(a[1]); n != nil && n != op && n.gid == op.gid && n.desc == op.desc {
+							verdict = "r"
+							return true
+						}
+						return !c12owAlive(op.gid)
+					})
+					errs = append(errs, verdict)
+				}
 				// the next slot of this key (if any) reaches the store
 				c12owWait(2*time.Millisecond, func() bool { return st.at(a[1]) != nil })
 			}
@@ -227,10 +254,10 @@ func c12owCase(ops []string) string {
 		}
 		return strings.Join(l, ",")
 	}
-	out := "store=" + j(sv) + " log=" + j(lg) + " infl=" + j(inf) + " res=" + rs
 	if rs == "" {
-		out = "store=" + j(sv) + " log=" + j(lg) + " infl=" + j(inf) + " res=-"
+		rs = "-"
 	}
+	out := "store=" + j(sv) + " log=" + j(lg) + " infl=" + j(inf) + " res=" + rs + " errs=" + j(errs)
 	// drain so that no goroutine stays behind
 	for n := 0; n < 200; n++ {
 		any := false
